@@ -19,6 +19,7 @@ import (
 	"sync"
 	"sync/atomic"
 	"time"
+	_ "time/tzdata"
 
 	"github.com/rogpeppe/go-internal/cache"
 
@@ -62,6 +63,8 @@ type world struct {
 	dir    string
 	c      *cache.Cache
 	now    time.Time
+	dst    bool // the clock is in a zone with daylight saving time, started within 5 days before a transition
+	phase  int  // 1: between events of the first round, 2: last step before the first Trim
 	hook   bool
 	files  map[string]*fileState // path relative to dir
 	ids    []cache.ActionID
@@ -194,9 +197,17 @@ func (w *world) lookup(i int) {
 var steps = []time.Duration{1, time.Second, 30 * time.Minute, hour - 1, hour, hour + 1, 90 * time.Minute, 2*hour - 1, 2 * hour, 23 * hour, day, 2 * day, 4 * day, 5*day - hour, 5*day - 1, 5 * day, 5*day + 1, 5*day + hour - 1, 5*day + hour, 5*day + hour + 1, 6 * day, 30 * day}
 
 func (w *world) advance() {
-	d := steps[w.rng.Intn(len(steps))]
+	k := w.rng.Intn(len(steps))
+	d := steps[k]
 	if !w.hook {
 		return
+	}
+	if w.dst && w.phase == 1 && d > 2*hour {
+		// daylight-saving histories: small steps between the events of the first round ...
+		d = steps[k%9]
+	} else if w.dst && w.phase == 2 && (d < 5*day-hour || d > 5*day+hour+1) {
+		// ... and about five days before its Trim, whose five-day window then straddles the transition
+		d = steps[13+k%7]
 	}
 	w.now = w.now.Add(d)
 }
@@ -286,7 +297,7 @@ func (w *world) snapshotExists() map[string]bool {
 
 var nUnwritable int64
 
-var nRan, nSkipped, nRemoved, nKept, nMustKeep, nMustRemove, nDontCare int64
+var nRan, nSkipped, nRemoved, nKept, nMustKeep, nMustRemove, nDontCare, nDST int64
 
 func (w *world) trim() {
 	tt := w.genTrimTxt()
@@ -427,6 +438,31 @@ func runHistory(base string, hidx int, seed int64, hook bool) {
 		if rng.Intn(4) == 0 {
 			w.now = time.Unix(w.now.Unix(), 0)
 		}
+		if hidx%3 == 1 {
+			// every third hooked history runs on the clock of a place with daylight saving time and starts
+			// within the five days before one of its 2024 transitions, so that the boundary-heavy steps
+			// (5d, 5d+1h, ...) straddle a day of 23, 25 or 23.5 hours: "five days" is 120 elapsed hours.
+			zr := rand.New(rand.NewSource(seed ^ 0x5a17))
+			zones := []string{"America/New_York", "Europe/Berlin", "Australia/Lord_Howe", "America/Santiago"}
+			if loc, err := time.LoadLocation(zones[zr.Intn(len(zones))]); err == nil {
+				var trans []time.Time
+				t := time.Date(2024, 1, 1, 0, 0, 0, 0, time.UTC)
+				_, off := t.In(loc).Zone()
+				for i := 0; i < 366*48; i++ {
+					t = t.Add(30 * time.Minute)
+					if _, o := t.In(loc).Zone(); o != off {
+						trans = append(trans, t)
+						off = o
+					}
+				}
+				if len(trans) > 0 {
+					tr := trans[zr.Intn(len(trans))]
+					w.now = tr.Add(-time.Duration(zr.Int63n(int64(5 * day)))).Add(time.Duration(w.now.Nanosecond())).In(loc)
+					w.dst = true
+					atomic.AddInt64(&nDST, 1)
+				}
+			}
+		}
 		c.VerifSetNow(func() time.Time { return w.now })
 	} else {
 		w.now = time.Now()
@@ -457,7 +493,13 @@ func runHistory(base string, hidx int, seed int64, hook bool) {
 				if rng.Intn(10) == 0 {
 					w.relocate(i)
 				}
+				if w.phase = 0; round == 0 {
+					if w.phase = 1; e == nev-1 {
+						w.phase = 2
+					}
+				}
 				w.advance()
+				w.phase = 0
 			} else {
 				// real clock: store, then age the files through their mtimes
 				if _, ok := w.cur[i]; !ok || rng.Intn(3) == 0 {
@@ -514,6 +556,7 @@ func main() {
 		r.Set("entry_files_removed", atomic.LoadInt64(&nRemoved))
 		r.Set("entry_files_kept", atomic.LoadInt64(&nKept))
 		r.Set("judged_must_keep", atomic.LoadInt64(&nMustKeep))
+		r.Set("histories_on_a_daylight_saving_clock", atomic.LoadInt64(&nDST))
 		r.Set("judged_must_remove", atomic.LoadInt64(&nMustRemove))
 		r.Set("judged_dont_care", atomic.LoadInt64(&nDontCare))
 		if atomic.LoadInt64(&nRan) < 20 || atomic.LoadInt64(&nSkipped) < 20 || atomic.LoadInt64(&nMustKeep) < 20 || atomic.LoadInt64(&nMustRemove) < 20 {
